@@ -111,8 +111,10 @@ func runC04(w *core.World, r *core.Report) {
 	r.Rule("R5", "Rewind: after an Up every return passes Top()==true or an error edge")
 	r.Rule("R6", "the Up of the '_' case is behind Top()==false")
 	r.Rule("R7", "the depth limit applies to descents only: Up, Next, Previous, Rewind and Same are reachable in the dispatcher without passing a comparison with state.MaxLevel")
+	r.Rule("R9", "entries of the navigation stack are never written in place: the only writes are whole-field stores in package state (append / re-slice)")
 	r.Rule("R8", "the position (ExecPath, SizeIdx) is always written to the snapshot: no omitempty on these fields")
 
+	checkExecPathElementsImmutable(w, r, "R9")
 	disp := navDispatchers(w)
 	if len(disp) != 1 {
 		r.Undecided("R1", "navigation dispatcher", token.NoPos, fmt.Sprintf("expected exactly one function in package vm that calls State.Down (the target dispatcher), found %d", len(disp)))
@@ -671,4 +673,46 @@ func casePassesMovers(w *core.World, r *core.Report, d *ssa.Function, label stri
 		r.Check(in == nil, "R1", fmt.Sprintf("%s: %s always performs %s", core.QName(d), label, n), pos, "every success path passes it",
 			fmt.Sprintf("%s can succeed without %s (the move is skipped or diverted on some path): the position differs from the documented table: %s", label, n, w.PathString(path)))
 	}
+}
+
+// checkExecPathElementsImmutable (C04 R9): a frame of the navigation stack changes only by being
+// pushed or popped. No library function stores through an index into State.ExecPath or into a
+// slice of it - a "shortened copy" made by re-slicing shares the stack's memory, and writing a
+// placeholder into it renames an ancestor frame.
+func checkExecPathElementsImmutable(w *core.World, r *core.Report, rule string) {
+	bad := ""
+	var badPos token.Pos
+	nf := 0
+	for _, fn := range w.LibFuncs {
+		uses := false
+		for _, in := range allInstrs(fn) {
+			if v, ok := in.(ssa.Value); ok {
+				if tn, f, ok := core.LoadedField(v); ok && tn == "state.State" && f == "ExecPath" {
+					uses = true
+				}
+			}
+		}
+		if !uses {
+			continue
+		}
+		nf++
+		for _, in := range allInstrs(fn) {
+			st, ok := in.(*ssa.Store)
+			if !ok {
+				continue
+			}
+			ia, ok := st.Addr.(*ssa.IndexAddr)
+			if !ok {
+				continue
+			}
+			for _, s := range core.Sources(ia.X) {
+				if tn, f, ok := core.LoadedField(s); ok && tn == "state.State" && f == "ExecPath" {
+					bad = fmt.Sprintf("%s writes an element of the navigation stack in place at %s", core.QName(fn), w.Pos(st.Pos()))
+					badPos = st.Pos()
+				}
+			}
+		}
+	}
+	r.Check(bad == "" && nf > 0, rule, "state: frames of the navigation stack are not written in place", badPos, fmt.Sprintf("%d functions read State.ExecPath, none stores through an index into it", nf),
+		"a frame of the navigation stack is overwritten (through the field or a re-slice that shares its memory): the stack no longer names the nodes that were entered, and the ascents that reach the frame look up a node that does not exist: "+bad)
 }
